@@ -16,6 +16,15 @@ def totalLen (r : Reader) : Nat := (r.map List.length).sum
 def showReads (l : List (Bytes × Bool)) : String :=
   if l.isEmpty then "_" else ",".intercalate (l.map fun (b, s) => hexOrDash b ++ (if s then "!" else ""))
 
+def showReadRes : ReadRes → String
+  | .data b s => hexOrDash b ++ (if s then "!" else "")
+  | .ended none => "EOF"
+  | .ended (some c) => s!"E{c}"
+
+/-- writers `w0=… w1=…` (hex lists) for `n` writers -/
+def kvWriters (args : List String) (n : Nat) : Option (List (List Bytes)) :=
+  (List.range n).mapM fun i => kvBytesList args s!"w{i}"
+
 def handle (op : String) (args : List String) : Option String :=
   match op with
   | "hdr" => do
@@ -52,6 +61,44 @@ def handle (op : String) (args : List String) : Option String :=
     let bufs ← kvNatList args "bufs"
     let q := connPump k chunks
     some s!"reads={showReads (connReads q bufs)} queued={q.length}"
+  | "wsched" => do
+    let n ← kvNat args "n"
+    let ws ← kvWriters args n
+    let sched ← kvNatList args "sched"
+    let out := writeSched ws sched
+    let left := ((schedLeft ws sched).map List.length).sum
+    some s!"order={showBytesList out} wire={hexOrDash (wireOf out)} left={left}"
+  | "writeto" => do
+    let p ← kvBytes args "p"
+    let acc ← kvNat args "acc"
+    let e ← kvNat args "err"
+    match writeTo p acc (e != 0) with
+    | (.ok n, w) => some s!"ok n={n} wire={hexOrDash w}"
+    | (.err n, w) => some s!"err n={n} wire={hexOrDash w}"
+  | "sendmsg" => do
+    let p ← kvBytes args "p"
+    let acc ← kvNat args "acc"
+    let e ← kvNat args "err"
+    let (ok, w) := sendMsg p acc (e != 0)
+    some s!"{if ok then "ok" else "err"} wire={hexOrDash w}"
+  | "connwrite" => do
+    let pkt ← kvBytes args "pkt"
+    let ks ← kvNatList args "ks"
+    let es ← kvNatList args "es"
+    let script := ks.zipWith (fun k e => (k, e != 0)) es
+    match connWrite script pkt with
+    | (.ok n, w) => some s!"ok n={n} wire={hexOrDash w}"
+    | (.err n, w) => some s!"err n={n} wire={hexOrDash w}"
+    | (.spin, w) => some s!"spin wire={hexOrDash w}"
+  | "connend" => do
+    let k ← kvNat args "k"
+    let chunks ← kvBytesList args "chunks"
+    let bufs ← kvNatList args "bufs"
+    let e ← kv args "end"
+    let ee : Option Nat ← if e = "eof" then some none else (e.toNat?).map some
+    let q := connPump k chunks
+    let rs := connReadsEnd q ee bufs
+    some s!"reads={if rs.isEmpty then "_" else ",".intercalate (rs.map showReadRes)} queued={q.length}"
   | _ => none
 
 end Driver.Framing
